@@ -30,7 +30,9 @@ MUTANTS = [
     m("C01-store-no-close", "C01", "C01.R1", B, "            return results\n        except BaseException:\n            self.close()\n            raise\n\n    def _misc_cmd", "            return results\n        except BaseException:\n            raise\n\n    def _misc_cmd"),
     m("C01-misc-read-with-noreply", "C01", "C01.R2a", B, "            if noreply:\n                return []\n", "            if False:\n                return []\n"),
     m("C01-delete-noreply-false", "C01", "C01.R2b", B, 'results = self._misc_cmd([cmd], b"delete", noreply)', 'results = self._misc_cmd([cmd], b"delete", False)'),
-    m("C01-store-read-values", "C01", "C01.R3", B, "            for key in keys:\n                try:\n                    buf, line = _readline(self.sock, buf)", "            for key in values:\n                try:\n                    buf, line = _readline(self.sock, buf)"),
+    m("C01-store-read-one-fewer", "C01", "C01.R3", B, "            for key in keys:\n                try:\n                    buf, line = _readline(self.sock, buf)", "            for key in keys[1:]:\n                try:\n                    buf, line = _readline(self.sock, buf)"),
+    # iterating the dict itself instead of the recorded key list reads one reply per command all the same
+    m("C01-silent-store-read-values", "C01", "", B, "            for key in keys:\n                try:\n                    buf, line = _readline(self.sock, buf)", "            for key in values:\n                try:\n                    buf, line = _readline(self.sock, buf)", kind="silent"),
     m("C01-buf-on-self", "C01", "C01.R4", B, "            results = []\n            buf = b\"\"\n            line = None\n            for cmd in cmds:", "            results = []\n            buf = b\"\"\n            self._last_buf = buf\n            line = None\n            for cmd in cmds:"),
     m("C01-misc-handler-oserror-only", "C01", "C01.R1", B, "            return results\n\n        except BaseException:\n            self.close()\n            raise", "            return results\n\n        except OSError:\n            self.close()\n            raise"),
     m("C01-silent-close-alias", "C01", "", B, "        except BaseException:\n            self.close()\n            raise\n\n    def __setitem__", "        except BaseException:\n            self.disconnect_all()\n            raise\n\n    def __setitem__", kind="silent"),
@@ -61,7 +63,9 @@ MUTANTS = [
     m("C05-incr-default-none", "C05", "C05.R4", B, "        self, key: Key, value: int, noreply: Optional[bool] = False\n    ) -> Optional[int]:\n        \"\"\"\n        The memcached \"incr\"", "        self, key: Key, value: int, noreply: Optional[bool] = None\n    ) -> Optional[int]:\n        \"\"\"\n        The memcached \"incr\""),
     m("C05-gets-no-cas", "C05", "C05.R2", B, 'self._fetch_cmd(b"gets", keys, True, key_prefix=self.key_prefix)', 'self._fetch_cmd(b"gets", keys, False, key_prefix=self.key_prefix)'),
     m("C05-server-error-not-raised", "C05", "C05.R5", B, '        if line.startswith(b"SERVER_ERROR"):', '        if line.startswith(b"SERVER_ERR0R"):'),
-    m("C05-line-used-before-check", "C05", "C05.R5", B, "                self._raise_errors(line, cmd_name)\n                results.append(line)", "                results.append(line)\n                self._raise_errors(line, cmd_name)"),
+    m("C05-misc-no-error-check", "C05", "C05.R5", B, "                self._raise_errors(line, cmd_name)\n                results.append(line)", "                results.append(line)"),
+    # appending to the local list before the error test changes nothing a caller can observe (the list dies with the raise)
+    m("C05-silent-append-before-check", "C05", "", B, "                self._raise_errors(line, cmd_name)\n                results.append(line)", "                results.append(line)\n                self._raise_errors(line, cmd_name)", kind="silent"),
     m("C05-silent-delete-ne", "C05", "", B, 'return results[0] == b"DELETED"', 'return results[0] != b"NOT_FOUND"', kind="silent"),
     # ---------------- C06
     m("C06-no-close-on-connect-failure", "C06", "C06.R1", B, "        except Exception:\n            sock.close()\n            raise\n\n        self.sock = sock", "        except Exception:\n            raise\n\n        self.sock = sock"),
